@@ -108,7 +108,10 @@ def c17_cross_slice_edge(stream, case, detail):
 
 
 def c17_no_intra_edge(stream, case, detail):
-    """a slice variable without intra-slice edge: the start / 1.5-slice clique trees are disconnected"""
+    """a slice variable without intra-slice edge: the start / 1.5-slice clique trees are disconnected.
+    (The constructor itself was repaired: 'CPD defined on variable not in the model' is NOT this finding.)"""
+    if isinstance(detail, str) and "CPD defined on variable not in the model" in detail:
+        return False
     return stream == "query" and _c17_parts(case)[0]
 
 
